@@ -1,7 +1,335 @@
-//! C13 — not implemented yet.
+//! C13 — a truncated file yields a prefix of the original records, then EOF or an error.
+//!
+//! For every driver in the property's quantifier (BGZF, BAM, BCF, CRAM, bgzipped SAM/VCF, index
+//! files) a document is written by noodles, and the file is cut at **every** byte offset (files up
+//! to `ALL_CUTS_LIMIT` bytes) or at all structural boundaries ±2 plus a stratified sample (larger
+//! files). Oracle per cut: the events delivered are a prefix of the intact file's events, followed
+//! by `Eof` or `Err`; never a panic; and when the decompressed stream a BAM/BCF record reader
+//! receives ends inside a record, or a CRAM file ends inside a container, the end must be `Err`.
 
+use crate::drivers::{self, Delivery, Doc, Driver, Ev, ReadOpts, summarize};
+use crate::engine::shard::ClosureSub;
 use crate::engine::*;
+use crate::oracle::{bgzf_walk, framing};
+use proptest::prelude::*;
+use serde::{Deserialize, Serialize};
+use std::sync::Arc;
+
+pub const ALL_CUTS_LIMIT: usize = 7000;
+const SAMPLED_CUTS: usize = 1500;
+
+#[derive(Clone, Debug, Serialize, Deserialize)]
+pub struct Case {
+    pub doc: Doc,
+    /// selects the stratified sample for large files
+    pub sample_seed: u32,
+    /// restrict to one cut (set in replay files written by hand; the generator leaves it None)
+    pub only_cut: Option<u32>,
+}
+
+pub const DRIVERS: &[&str] = &["bgzf", "bam", "bam-eager", "bam-raw", "sam.gz", "vcf.gz", "bcf", "bcf-raw", "cram", "bai", "csi", "tabix", "gzi", "fai", "crai"];
+
+fn body(t: &[Ev]) -> (&[Ev], Option<&Ev>) {
+    match t.last() {
+        Some(e @ (Ev::Eof | Ev::Err { .. } | Ev::Runaway)) => (&t[..t.len() - 1], Some(e)),
+        _ => (t, None),
+    }
+}
+
+/// FNV-1a prefix hashes: h[i] = hash of data[..i].
+fn prefix_hashes(data: &[u8]) -> Vec<u64> {
+    let mut v = Vec::with_capacity(data.len() + 1);
+    let mut h: u64 = 0xcbf29ce484222325;
+    v.push(h);
+    for b in data {
+        h ^= *b as u64;
+        h = h.wrapping_mul(0x100000001b3);
+        v.push(h);
+    }
+    v
+}
+
+struct Ctx<'a> {
+    drv: &'a dyn Driver,
+    doc: &'a Doc,
+    full: Vec<Ev>,
+    /// intact file, uncompressed (BGZF based formats)
+    members: Vec<bgzf_walk::Member>,
+    u_hashes: Vec<u64>,
+    frame: Option<framing::Framing>,
+    cram: Option<framing::CramFraming>,
+    line_oriented: bool,
+    /// uncompressed line-oriented payload (sam.gz / vcf.gz) or the file itself (fai)
+    text: Vec<u8>,
+}
+
+fn check_cut(cx: &Ctx, file: &[u8], k: usize, fails: &mut Fails, partial_final_lines: &mut u64) {
+    if cx.drv.name() == "bgzf" {
+        // also through the reader's direct path for caller buffers of at least one block
+        check_cut_with(cx, file, k, fails, partial_final_lines, 70_000);
+    }
+    check_cut_with(cx, file, k, fails, partial_final_lines, 4093);
+}
+
+fn check_cut_with(cx: &Ctx, file: &[u8], k: usize, fails: &mut Fails, partial_final_lines: &mut u64, bgzf_buf: usize) {
+    let name = cx.drv.name();
+    let data = Arc::new(file[..k].to_vec());
+    let opts = ReadOpts { vpos: false, max_events: cx.full.len() * 2 + 64, bgzf_buf, ..ReadOpts::default() };
+    let (t, _) = cx.drv.read(&data, &Delivery::Plain, cx.doc, &opts);
+    let (tb, tend) = body(&t);
+    let (fb, _) = body(&cx.full);
+    let at = |msg: String| format!("cut at byte {k} of {} (read buffer {bgzf_buf}): {msg} | intact: {} | truncated: {}", file.len(), summarize(&cx.full), summarize(&t));
+
+    // terminal event
+    match tend {
+        Some(Ev::Eof) | Some(Ev::Err { .. }) => {}
+        Some(Ev::Runaway) => {
+            fails.push(format!("c13.runaway:{name}"), at("the reader keeps producing events beyond what the file holds".into()));
+            return;
+        }
+        _ => {
+            fails.push(format!("c13.no-terminal:{name}"), at("transcript does not end in Eof or Err".into()));
+            return;
+        }
+    }
+    // BGZF raw bytes: delivered bytes must be a prefix of the payload
+    if name == "bgzf" {
+        if let Some(Ev::Bytes(h, len)) = tb.first() {
+            if *len >= cx.u_hashes.len() || cx.u_hashes[*len] != *h {
+                fails.push("c13.not-a-prefix:bgzf", at(format!("the {len} bytes delivered are not a prefix of the {} bytes written", cx.u_hashes.len() - 1)));
+            }
+        }
+        return;
+    }
+    // uncompressed prefix available to the record layer
+    let (u_len, u_complete_lines_only) = if cx.drv.is_bgzf() {
+        let (members, _) = bgzf_walk::walk_prefix(&data);
+        let n: usize = members.iter().map(|m| m.data.len()).sum();
+        (n, cx.text.get(..n).map(|t| t.is_empty() || t.ends_with(b"\n")).unwrap_or(true))
+    } else {
+        (k, cx.text.get(..k).map(|t| t.is_empty() || t.ends_with(b"\n")).unwrap_or(true))
+    };
+    // prefix relation
+    let mut cmp = tb;
+    if cx.line_oriented && !u_complete_lines_only && !cmp.is_empty() {
+        // stated exemption: a final unterminated line delivered by the stream is not counted as an
+        // altered record
+        let n = cmp.len() - 1;
+        let head_ok = n <= fb.len() && cmp[..n] == fb[..n];
+        let last_matches = fb.get(n) == cmp.last();
+        if head_ok && !last_matches {
+            *partial_final_lines += 1;
+            cmp = &cmp[..n];
+        }
+    }
+    // line-oriented payloads do not frame their header: a shorter header made of complete lines of
+    // the original header is a prefix of what was written (only if nothing follows it)
+    let mut fb_owned: Vec<Ev>;
+    let mut fb = fb;
+    if cx.line_oriented && cmp.len() == 1 {
+        if let (Some(Ev::Header(t)), Some(Ev::Header(f))) = (cmp.first(), fb.first()) {
+            if f.starts_with(t.as_str()) && (t.is_empty() || t.ends_with('\n')) {
+                fb_owned = fb.to_vec();
+                fb_owned[0] = Ev::Header(t.clone());
+                fb = &fb_owned[..];
+            }
+        }
+    }
+    let _ = &mut fb;
+    if cmp.len() > fb.len() || cmp != &fb[..cmp.len()] {
+        let idx = cmp.iter().zip(fb.iter()).position(|(a, b)| a != b).unwrap_or(fb.len().min(cmp.len()));
+        fails.push(
+            format!("c13.not-a-prefix:{name}"),
+            at(format!(
+                "event {idx} differs: intact={} truncated={}",
+                fb.get(idx).map(|e| trunc(&format!("{e:?}"), 300)).unwrap_or("<none>".into()),
+                cmp.get(idx).map(|e| trunc(&format!("{e:?}"), 300)).unwrap_or("<none>".into())
+            )),
+        );
+        return;
+    }
+    // clean EOF inside a record / container
+    if matches!(tend, Some(Ev::Eof)) {
+        if let Some(fr) = &cx.frame {
+            if u_len > fr.header_end && !fr.is_boundary(u_len) {
+                fails.push(format!("c13.clean-eof-inside-record:{name}"), at(format!("the decompressed stream ends at {u_len}, inside a record, yet the reader reports a clean end of file")));
+            }
+        }
+        if let Some(cf) = &cx.cram {
+            if k > 26 && cf.boundaries.binary_search(&k).is_err() {
+                // the last container of an intact file is the EOF container: 23-byte header + 15-byte body
+                let eof_start = cf.boundaries[cf.boundaries.len() - 2];
+                let eof_header = cf.containers.last().map(|c| c.0).unwrap_or(0);
+                if k >= eof_start + eof_header {
+                    fails.push(
+                        "c13.clean-eof-inside-eof-container-body:cram",
+                        at("the file ends inside the body of the EOF container (header complete, fixed 15-byte body cut), yet the reader reports a clean end of file".into()),
+                    );
+                } else {
+                    fails.push("c13.clean-eof-inside-container:cram", at("the file ends inside a container, yet the reader reports a clean end of file".into()));
+                }
+            }
+        }
+    }
+}
+
+fn line_oriented_name(name: &str) -> bool {
+    matches!(name, "sam.gz" | "vcf.gz" | "fai")
+}
+
+fn check(drv: &dyn Driver, c: &Case) -> Verdict {
+    let name = drv.name();
+    let file = match drivers::write_to_vec(drv, &c.doc) {
+        Ok(b) => b,
+        Err(e) => return fail1(format!("c13.baseline-write-error:{name}"), format!("writing the generated document failed: {e}")),
+    };
+    let data = Arc::new(file.clone());
+    let opts = ReadOpts { vpos: false, ..ReadOpts::default() };
+    let (full, _) = drv.read(&data, &Delivery::Plain, &c.doc, &opts);
+    if !matches!(full.last(), Some(Ev::Eof)) || full.iter().any(|e| matches!(e, Ev::Err { .. } | Ev::Runaway)) {
+        return fail1(format!("c13.baseline-read-error:{name}"), format!("plain read of noodles' own output fails: {}", summarize(&full)));
+    }
+    let members = if drv.is_bgzf() {
+        match bgzf_walk::walk(&file) {
+            Ok(m) => m,
+            Err(e) => return fail1(format!("c13.baseline-malformed-bgzf:{name}"), e),
+        }
+    } else {
+        Vec::new()
+    };
+    let u = bgzf_walk::concat(&members);
+    let frame = match name {
+        "bam" | "bam-eager" => framing::bam(&u),
+        "bcf" => framing::bcf(&u),
+        "bam-raw" => framing::bam(&file),
+        "bcf-raw" => framing::bcf(&file),
+        _ => None,
+    };
+    if matches!(name, "bam" | "bam-eager" | "bcf" | "bam-raw" | "bcf-raw") {
+        match &frame {
+            Some(f) if f.complete => {}
+            _ => return fail1(format!("c13.baseline-framing:{name}"), "the harness's own record framing does not parse noodles' output completely".to_string()),
+        }
+    }
+    let cram = if name == "cram" {
+        match framing::cram(&file) {
+            Some(f) if f.complete => Some(f),
+            _ => return fail1("c13.baseline-framing:cram", "the harness's own container framing does not parse noodles' output completely".to_string()),
+        }
+    } else {
+        None
+    };
+    let line_oriented = matches!(name, "sam.gz" | "vcf.gz" | "fai");
+    let text = if name == "fai" { file.clone() } else { u.clone() };
+    let cx = Ctx { drv, doc: &c.doc, full, u_hashes: if name == "bgzf" { prefix_hashes(&u) } else { Vec::new() }, members, frame, cram, line_oriented, text };
+
+    // cut set
+    let len = file.len();
+    let mut cuts: Vec<usize> = if let Some(k) = c.only_cut {
+        vec![(k as usize).min(len)]
+    } else if len <= ALL_CUTS_LIMIT {
+        (0..=len).collect()
+    } else {
+        let mut v: Vec<usize> = Vec::new();
+        let bounds = if drv.is_bgzf() || line_oriented_name(name) { super::c12::structural_boundaries(drv, &file) } else { Vec::new() };
+        for b in bounds {
+            for d in -2i64..=2 {
+                let x = b as i64 + d;
+                if x >= 0 && x as usize <= len {
+                    v.push(x as usize);
+                }
+            }
+        }
+        let mut r = crate::r#gen::payload::XorShift::new(c.sample_seed as u64 + 17);
+        let stride = (len / SAMPLED_CUTS).max(1);
+        let mut x = 0usize;
+        while x <= len {
+            v.push((x + (r.next() as usize % stride)).min(len));
+            x += stride;
+        }
+        v.push(0);
+        v.push(len);
+        v
+    };
+    cuts.sort_unstable();
+    cuts.dedup();
+    let all_cuts = c.only_cut.is_none() && len <= ALL_CUTS_LIMIT;
+
+    let mut fails = Fails::new();
+    let mut partial_final_lines = 0u64;
+    for k in &cuts {
+        if *k == len {
+            continue;
+        }
+        check_cut(&cx, &file, *k, &mut fails, &mut partial_final_lines);
+        if fails.0.len() >= 8 {
+            break;
+        }
+    }
+    let units = if let Doc::BinIndex(d) = &c.doc {
+        d.recs.len()
+    } else if drv.is_bgzf() { cx.members.iter().filter(|m| !m.data.is_empty()).count() } else if let Some(cf) = &cx.cram { cf.containers.len().saturating_sub(1) } else { drivers::records_of(&cx.full).len() };
+    let n_records = drivers::records_of(&cx.full).len();
+    fails.finish(
+        Pass::new(units >= 2, key_of(&c.doc))
+            .evals(cuts.len() as u64)
+            .label_if(all_cuts, "every-cut")
+            .label_if(!all_cuts, "boundary±2+sampled-cuts")
+            .label_if(units >= 2, "units>=2")
+            .label_if(units >= 5, "units>=5")
+            .label_if(n_records >= 2, "records>=2")
+            .label_if(partial_final_lines > 0, "partial-final-line-exempted"),
+    )
+}
 
 pub fn property() -> Property {
-    Property { id: "C13", level: "exploration", rule: "", assumptions: vec![], subs: vec![], max_parallel: 16 }
+    let mut subs: Vec<Box<dyn DynSub>> = Vec::new();
+    for dname in DRIVERS {
+        let dname: &'static str = dname;
+        let (q, t) = match dname {
+            "cram" => (64, 1500),
+            "bgzf" => (96, 2500),
+            _ => (160, 4000),
+        };
+        subs.push(
+            ClosureSub::<Case> {
+                name: dname.to_string(),
+                rule: "one case = one written file cut at every byte offset (≤7000 bytes) or at all structural boundaries ±2 plus a stratified sample; evaluations counts cuts; non-trivial = the file holds ≥2 data blocks (BGZF based), ≥2 data containers (CRAM) or ≥2 entries (indexes); distinct by hash of the document".into(),
+                strategy: Box::new(move |tier| {
+                    let d = drivers::by_name(dname).unwrap();
+                    let doc = if dname == "bgzf" {
+                        // small payloads with several flushes so every cut is affordable, and a few large ones
+                        use crate::r#gen::payload::payload;
+                        prop_oneof![
+                            4 => (payload(3000), proptest::collection::vec(0u16..=1000, 1..5), proptest::option::of(0u8..=9)).prop_map(|(payload, flushes, level)| Doc::Bytes { payload, flushes, level }),
+                            1 => d.doc(tier),
+                        ]
+                        .boxed()
+                    } else {
+                        d.doc(tier)
+                    };
+                    (doc, any::<u32>()).prop_map(|(doc, sample_seed)| Case { doc, sample_seed, only_cut: None }).boxed()
+                }),
+                check: Box::new(move |c| {
+                    let d = drivers::by_name(dname).unwrap();
+                    check(d.as_ref(), c)
+                }),
+                quick: q,
+                thorough: t,
+                opts: SubOpts { max_shards: 8, isolate: true, hang_is_violation: true, case_budget_s: 30, max_shrink_iters: 60, ..SubOpts::default() },
+            }
+            .boxed(),
+        );
+    }
+    Property {
+        id: "C13",
+        level: "fault_enumeration",
+        rule: "crash points: every byte offset of files written by noodles (BGZF, BAM lazy+eager, bgzipped SAM/VCF, BCF, CRAM, BAI, CSI, tabix, gzi, fai, crai) with explicit flushes so that small files hold several blocks/containers",
+        assumptions: vec![
+            "the harness's BGZF walker and BAM/BCF/CRAM framing parsers (written from the specifications) locate block, record and container boundaries".into(),
+            "stated exemption: for line-oriented payloads (bgzipped SAM/VCF, fai) a final unterminated line is not counted as an altered record".into(),
+        ],
+        subs,
+        max_parallel: 16,
+    }
 }
